@@ -75,6 +75,7 @@ class TaskSpec:
         # uidform: None = `UID:<uid>`; "long" = a UID of 256..700 characters (cannot be interned: the task is turned down);
         # "auto" = no UID line (the task goes by the hash of its command); "none" = neither UID nor SUMMARY (turned down)
         self.uidform = uidform
+        self.ancient = 0              # days between DTSTART and the first occurrence given (daily occurrences then)
         self.cmd = "echo %s" % uid
         self.uid_line = {None: "UID:%s" % uid, "long": "UID:%s" % (uid + "-" + "x" * (255 - len(uid) + (occ[0] if occ else 0) % 400)),
                          "auto": None, "none": None}[uidform]
@@ -116,8 +117,13 @@ class TaskSpec:
                 l.append("X-ECHS-OWNER:%d" % self.owner)
             l.append("END:VEVENT")
             return l
-        l = ["BEGIN:VEVENT"] + self.id_lines() + [ "DTSTART:%s" % stamp(self.occ[0])]
-        if len(self.occ) > 1:
+        if self.ancient:
+            # a rule that began long ago (before 2001, the epoch of the daemon's own calendar arithmetic)
+            l = ["BEGIN:VEVENT"] + self.id_lines() + ["DTSTART:%s" % stamp(self.occ[0] - self.ancient * 86400),
+                                                      "RRULE:FREQ=DAILY;UNTIL=%s" % stamp(self.occ[-1])]
+        else:
+            l = ["BEGIN:VEVENT"] + self.id_lines() + [ "DTSTART:%s" % stamp(self.occ[0])]
+        if len(self.occ) > 1 and not self.ancient:
             step = self.occ[1] - self.occ[0]
             if self.use_rdate or any(b - a != step for a, b in zip(self.occ, self.occ[1:])):
                 # echse does not count DTSTART itself as an occurrence once RDATEs are given (pinned by rrul_37..41)
@@ -405,6 +411,18 @@ def gen_history(rng, knobs):
                                           uidform=rng.choice(knobs.get("uidforms", [None]))))
             op, its = request(peer, items, knobs.get("wire") if rng.random() < knobs.get("p_wire", 0.5) else None)
             ops.append(op); acts.append(("A", peer, its))
+        elif r < 0.62 and knobs.get("allday", False) and rng.random() < 0.08:
+            # a daily task that began in the last century: the next occurrences are due all the same
+            first = now + rng.choice([-5, 0, 1, 3, 40])
+            n = rng.choice([1, 2, 3])
+            spec = TaskSpec(rng.choice(uids), [first + 86400 * i for i in range(n)], rng.choice([None, 1]), 0, None)
+            spec.ancient = rng.choice([10960, 11500, 12000, 23000])        # 2000, 1998, 1997, 1967 or so
+            peer = rng.choice(pool)
+            op, its = request(peer, [spec])
+            ops.append(op); acts.append(("A", peer, its))
+            now = first + rng.choice([-1, 0, 1, 2, 86390, 86401])
+            ops.append("T %d" % now); acts.append(("T", now))
+            spawned += 3
         elif r < 0.62 and knobs.get("allday", False) and rng.random() < 0.12:
             # a task of whole days (DATE values, due at midnight UTC), then the clock goes to about the next midnight
             day0 = now - now % 86400
@@ -418,7 +436,16 @@ def gen_history(rng, knobs):
             spawned += 3
         elif r < 0.62:
             now += rng.choice([1, 1, 2, 3, 5, 11, 30])
-            ops.append("T %d" % now); acts.append(("T", now))
+            z = rng.random()
+            if knobs.get("jumps", False) and z < 0.35:
+                # the wall clock is stepped (NTP, resume from suspend): to the daemon the same as a late wake-up
+                ops.append("J %d" % now)
+            elif knobs.get("busy", False) and z < 0.3:
+                # an iteration whose callbacks take a while on the wall clock (many spawns)
+                ops.append("TB %d %d" % (now, rng.choice([1, 2, 5, 30])))
+            else:
+                ops.append("T %d" % now)
+            acts.append(("T", now))
             spawned += 3
         elif r < 0.66 and knobs.get("tx", True):
             now += rng.choice([1, 2, 5, 10])
@@ -599,18 +626,25 @@ def run_checks(ctx, prop, knobs, n_quick, n_thorough, rule, me_choices=(0,)):
     rng = ctx.rng
     n = n_thorough if ctx.tier == "thorough" else n_quick
     cases = []
-    for _ in range(n):
+    for k in range(n):
         me = rng.choice(me_choices)
-        ops, acts = gen_history(rng, knobs)
+        # one history in twelve with steps of the wall clock (knob jump_share)
+        jk = dict(knobs, jumps=True) if knobs.get("jump_share") and k % knobs["jump_share"] == 3 else knobs
+        ops, acts = gen_history(rng, jk)
         cases.append((me, ops, acts))
     lines = ["d.hist %d ; %s" % (me, " ; ".join(ops)) for me, ops, _ in cases]
     lines += common.load_corpus(prop)
     impl, st, err = ctx.impl(exe, lines, timeout=3600)
     model = ctx.model(lines)
-    mine, others = [], collections.Counter()
+    mine, others, stepped = [], collections.Counter(), []
     for i, (me, ops, acts) in enumerate(cases):
+        jumps = [j for j, o in enumerate(ops) if o.startswith("J ")]
         for p, why in compare(acts, impl[i] if i < len(impl) else "", me):
-            if p == prop:
+            m = re.match(r"op (\d+)", why)
+            if jumps and m and int(m.group(1)) >= jumps[0] and p in ("C04", "C12", "C14", "C11"):
+                # after a step of the clock: judged as a class of its own (recorded finding or not, see below)
+                stepped.append((i, p, why))
+            elif p == prop:
                 mine.append((i, why))
             else:
                 others[p] += 1
@@ -635,6 +669,14 @@ def run_checks(ctx, prop, knobs, n_quick, n_thorough, rule, me_choices=(0,)):
     })
     ctx.assumptions += ["libev contract of DESIGN.md Appendix B (stand-in harness/fakeev/ev.h); posix_spawn, getpwuid replaced; "
                         "recurrence streams are SECONDLY rules / RDATE lists whose expansion the generator knows"]
+    if stepped:
+        ctx.cov["histories_differing_after_a_clock_step"] = len({i for i, _, _ in stepped})
+        kn = [k for k in common.load_known(prop) if k.get("status") == "known" and k.get("class") == "clock-step"]
+        if kn:
+            ctx.known(kn[0]["what"])
+        elif prop == "C04" and not mine:
+            i, p, why = stepped[0]
+            mine.append((i, "after a step of the wall clock: " + why))
     if st != "ok" and not mine and not corr:
         ctx.violation("correspondence", "harness ended with %s: %s" % (st, err[-600:]), {"stderr": err}, found_input=False)
     if mine:
